@@ -1,3 +1,4 @@
+#![cfg_attr(kani, feature(pattern))]
 //! K-unit harness crate: leaf files of /repo/src are copied unmodified into src/real/ at
 //! run time by /verif/check and compiled here against the bounded i128 model of num-bigint.
 #![allow(dead_code, unused_imports, unused_macros, clippy::all)]
